@@ -28,9 +28,10 @@ def obs_equal(kind, a, b):
     if a == b:
         return True
     if kind in ("emit", "hist", "run") and a is not None and b is not None and "=" in b:
-        bt = b.split(" ")
-        keys = [t.split("=", 1)[0] for t in bt]
-        at = [t for t in a.split(" ") if t.split("=", 1)[0] in keys]
+        akeys = [t.split("=", 1)[0] for t in a.split(" ") if "=" in t]
+        bkeys = [t.split("=", 1)[0] for t in b.split(" ") if "=" in t]
+        at = [t for t in a.split(" ") if t.split("=", 1)[0] in bkeys]
+        bt = [t for t in b.split(" ") if t.split("=", 1)[0] in akeys]
         return at == bt
     return False
 
@@ -254,6 +255,89 @@ def sig_from_expect(k, s):
     return {"class": t[1]} if len(t) > 1 else {}
 
 
+# ---------------------------------------------------------------- C01-C04, C16: generated safe programs
+def sem_oracle(k, s):
+    """run cases: the implementation's script under real Bash against the reference semantics (driver's Src.run)"""
+    if k[0] != "run":
+        return False
+    spec = s["model"].get(k) or ""
+    if not spec.startswith("transpile="):
+        return False                      # undefined behaviour or fuel: nothing prescribed
+    o = s["impl"].get(k) or ""
+    if obs_equal("run", o, spec):
+        return None
+    return "Bash run differs from the reference semantics: expected %s" % spec[:600]
+
+
+def syntax_oracle(k, s):
+    if k[0] != "emit":
+        return False
+    o = s["impl"].get(k) or ""
+    d = dict(t.split("=", 1) for t in o.split(" ") if "=" in t)
+    if d.get("bash", "").startswith("ok:") and d.get("bashsyntax") != "ok":
+        return "bash -n rejects the emitted script"
+    if d.get("batch", "").startswith("ok:") and d.get("batchsyntax") != "ok":
+        return "Batch script is malformed: %s" % d.get("batchsyntax")
+    if d.get("bash", "").startswith("ok:") != d.get("batch", "").startswith("ok:"):
+        return "the two targets disagree on acceptance"
+    return None
+
+
+def decode_run(o):
+    d = dict(t.split("=", 1) for t in (o or "").split(" ") if "=" in t)
+    for key in ("out", "stderr"):
+        if key in d:
+            d[key] = hexs(d[key])
+    return d
+
+
+def run_sem(ctx, ck, streams, oracles, quick_n, thorough_n):
+    for name in streams:
+        n = quick_n if ctx.tier == "quick" else thorough_n
+        s = ck.run_stream(ctx, name, n)
+
+        def oracle(k, s):
+            res = False
+            for o in oracles:
+                r = o(k, s)
+                if r:
+                    return r
+                if r is None:
+                    res = None
+            return res
+
+        compare(ctx, s, "%s: script bytes (model) and Bash execution (reference semantics)" % name, lambda k, s: {}, describe_prog,
+                lambda k, s: k[0] == "run" and (s["impl"].get(k) or "").startswith("transpile=ok out="), oracle=oracle)
+        ctx.cov.setdefault("distribution", {}).update(s["meta"])
+        und = sum(1 for k in s["cases"] if k[0] == "run" and not (s["model"].get(k) or "").startswith("transpile="))
+        ctx.cov["spec_undefined_or_nofuel"] = ctx.cov.get("spec_undefined_or_nofuel", 0) + und
+        for k in [k for k in s["cases"] if k[0] == "run"][:2]:
+            ctx.samples.append({"source": prog_source(s["cases"][k])[:600], "bash_run": decode_run(s["impl"].get(k))})
+
+
+def run_c01(ctx, ck):
+    run_sem(ctx, ck, ["sem-scalar"], [sem_oracle], 250, 8000)
+
+
+def run_c02(ctx, ck):
+    run_sem(ctx, ck, ["sem-funcs"], [sem_oracle], 200, 6000)
+
+
+def run_c03(ctx, ck):
+    run_sem(ctx, ck, ["sem-slices"], [sem_oracle], 200, 6000)
+
+
+def run_c04(ctx, ck):
+    run_sem(ctx, ck, ["sem-effects"], [sem_oracle], 200, 6000)
+
+
+def run_c16(ctx, ck):
+    run_sem(ctx, ck, ["sem-all", "suite"], [syntax_oracle], 200, 6000)
+    s = ck.run_stream(ctx, "fuzz", 600 if ctx.tier == "quick" else 20000)
+    compare(ctx, s, "fuzz: accepted near-miss programs must be well-formed too", lambda k, s: {}, describe_prog,
+            lambda k, s: "ok:" in (s["impl"].get(k) or ""), oracle=syntax_oracle)
+
+
 # ---------------------------------------------------------------- C14
 def run_c14(ctx, ck):
     n = 40 if ctx.tier == "quick" else 1500
@@ -284,7 +368,29 @@ def run_c14(ctx, ck):
         ctx.samples.append({"history": describe(k, s), "observed": s["impl"].get(k, "")[:200]})
 
 
+SEM_RULE = ("type-directed generated programs (harness/proggen.go, Safe mode: accepted, terminating, defined behaviour), depth 2-5, 2-6 statements per "
+            "block, all statement and expression forms of the fragment; each program is transpiled by the implementation, its script bytes compared "
+            "with the model's, executed under /bin/bash and compared (stdout, status, empty stderr) with the reference semantics Sem/Src.v run on "
+            "the model's AST; non-trivial = accepted and executed programs; distinct by source hash. Fragment: ")
+SEM_TRUST = ["coq/Sem/Src.v is the specification of program meaning (validated on the 124 accepted suite programs and thousands of generated ones against real Bash)",
+             "the generator's notion of 'defined behaviour' (harness/proggen.go) bounds what is explored"]
+
 PROPS = {
+    "C01": {"run": run_c01, "rule": SEM_RULE + "scalars, operators, all control flow, print/itoa/panic", "trusted": SEM_TRUST,
+            "assumptions": ["real Bash 5.2 of this sandbox is the interpreter"]},
+    "C02": {"run": run_c02, "rule": SEM_RULE + "functions of any arity, multi-value returns, nested calls, shared identifier pools, globals written in functions, swaps",
+            "trusted": SEM_TRUST, "assumptions": ["real Bash 5.2 of this sandbox is the interpreter"]},
+    "C03": {"run": run_c03, "rule": SEM_RULE + "slices (aliasing, growth, copy, range) and strings (subscripts, concatenation, range, len)",
+            "trusted": SEM_TRUST, "assumptions": ["real Bash 5.2 of this sandbox is the interpreter"]},
+    "C04": {"run": run_c04, "rule": SEM_RULE + "functions with side effects (prints, global updates) at operand positions of every statement kind",
+            "trusted": SEM_TRUST, "assumptions": ["real Bash 5.2 of this sandbox is the interpreter"]},
+    "C16": {"run": run_c16,
+            "rule": "generated programs over the whole language (depth 3-5), the suite's programs and accepted near-miss programs of the fuzz stream; every emitted Bash "
+                    "script through the real `bash -n`, every Batch script through a structural checker (parentheses, labels, goto/call targets, helpers "
+                    "iff used, loop jumps inside their loop); the Coq checkers run on the model's lines and must agree; non-trivial = accepted programs",
+            "trusted": ["Back/BashSyntax.v is the model of what bash -n demands (validated against bash -n on every case)",
+                        "harness/syntaxcheck.go and Back/BatchSyntax.v state the Batch well-formedness conditions"],
+            "assumptions": ["cmd.exe itself is not available; Batch well-formedness is structural"]},
     "C14": {
         "run": run_c14,
         "rule": "histories of 5-10 Transpile calls over 2-4 programs (suite programs, some invalid, and generated import graphs) and both targets on ONE "
